@@ -269,7 +269,9 @@ def axioms(ctx, block):
 
 # ----------------------------------------------------------------------------
 
-PARAMS = {"erm": [0.1, 1.0, 10.0], "es": [0.05, 0.2, 1 / 3, 0.5, 0.75, 1.0], "qcvar": [1.0, 2.0, 10.0, 100.0],
+# entropic risk aversions: 1e-4, 5e-4, 2e-3 straddle 1e-3 (a * spread reaches 1e2..1e3 at scale 1e6: a small
+# coefficient is NOT a small exponent), then the O(1) values
+PARAMS = {"erm": [1e-4, 5e-4, 2e-3, 0.1, 1.0, 10.0], "es": [0.05, 0.2, 1 / 3, 0.5, 0.75, 1.0], "qcvar": [1.0, 2.0, 10.0, 100.0],
           "eloss": [0.1, 1.0, 10.0], "iso": [0.25, 0.5, 1.0]}
 
 CONFIGS = [  # dtype, scale, via, shape
@@ -307,6 +309,11 @@ def blocks(ctx):
                 params = [a for a in PARAMS[measure] if measure != "eloss" or a * 100 <= lim]
                 out.append({"measure": measure, "N": N, "A": heavy, "params": params, "scale": 1.0,
                             "dtype": dtype, "via": "module", "shape": "2d"})
+        if measure == "erm":
+            # heavy tail at a large scale: one loss of 1e6 against outcomes of 0 and 5e3
+            for N in (2, 3):
+                out.append({"measure": measure, "N": N, "A": [-800, 0, 4], "params": PARAMS[measure], "scale": 1e4,
+                            "dtype": "float64", "via": "module", "shape": "2d"})
         if measure in RISK:
             # heavy common cash component (the P&L of a funded position): x + 2^20 resp. x + 1024
             out.append({"measure": measure, "N": 3, "A": A, "params": PARAMS[measure], "scale": 1.0,
